@@ -22,6 +22,15 @@ mod preprocessing;
 mod sampling;
 pub mod vector;
 
+/// Verification hooks: re-exports of the crate-internal modules so that external
+/// verification harnesses can name their items. Off by default.
+#[cfg(feature = "verif")]
+pub mod verif {
+    pub use crate::mimic_rng::*;
+    pub use crate::preprocessing::*;
+    pub use crate::sampling::*;
+}
+
 /// Maximum number of edges supported by momtrop.
 pub const MAX_EDGES: usize = 64;
 /// Maximum number of vertices supported by momtrop.
